@@ -2,6 +2,7 @@
 """mk_agent_prompt.py <Cxx> <worktree>: prompt for an independent seeding sub-agent (property text + its own scratch worktree only)."""
 import json, sys
 pid, wt = sys.argv[1], sys.argv[2]
+N3 = len(sys.argv) > 3 and sys.argv[3] == "3"
 P = None
 for l in open('/verif/properties.jsonl'):
     d = json.loads(l)
@@ -20,7 +21,7 @@ Quantified over: {P['quantifier']['text']}
 
 Main files involved: {files}
 
-YOUR TASK: produce TWO different, independent, realistic source changes to the library (under src/lib or include) that each BREAK this property while the library still compiles and the existing test suite still passes. Think of a plausible regression a maintainer could introduce by a refactor, an optimisation, a mis-merged patch, or an incomplete bug fix -- not sabotage that any use would expose at once. Each change must need something SPECIFIC to manifest: a particular interleaving, a crash/fault/allocation failure at a particular point, a multi-step sequence of API operations, an unusual input, a rarely used option combination, or two cooperating sites that each look fine alone. Prefer subtle, small changes (1-15 lines). The two changes should break the property in different ways / at different sites. Avoid the single most obvious candidate (deleting the one check everybody would think of first): look at error-handling paths, less-travelled functions in the listed files, helper functions the main path relies on, and clauses of the statement that are easy to overlook.
+YOUR TASK: produce {"THREE" if N3 else "TWO"} different, independent, realistic source changes to the library (under src/lib or include) that each BREAK this property while the library still compiles and the existing test suite still passes. Think of a plausible regression a maintainer could introduce by a refactor, an optimisation, a mis-merged patch, or an incomplete bug fix -- not sabotage that any use would expose at once. Each change must need something SPECIFIC to manifest: a particular interleaving, a crash/fault/allocation failure at a particular point, a multi-step sequence of API operations, an unusual input, a rarely used option combination, or two cooperating sites that each look fine alone. Prefer subtle, small changes (1-15 lines). The changes should break the property in different ways / at different sites{" and, where the statement has several clauses or the property spans several files, in different clauses / files" if N3 else ""}. Avoid the single most obvious candidate (deleting the one check everybody would think of first): look at error-handling paths, less-travelled functions in the listed files, helper functions the main path relies on, and clauses of the statement that are easy to overlook.
 
 For each change provide a DEMONSTRATION: a small C (or C++) program or test that uses the library's public API (or, if unavoidable, internal headers from src/lib) and FAILS (non-zero exit / crash / sanitizer report / wrong output it detects itself) when built against the changed library and PASSES (exit 0) against the unchanged library. Demonstrations must run offline; use loopback sockets / local mock servers / custom socket functions (ares_set_socket_functions_ex) / custom allocators (ares_library_init_mem) as needed. test/ contains a gtest-based suite with a mock DNS server you may take inspiration from, but the demonstration should preferably be a stand-alone program with a small build command. Demonstrations should be deterministic and finish within about 30 seconds.
 
@@ -35,7 +36,7 @@ DELIVERABLES, all inside {wt}/seed/ (create it):
   seed/change1/patch.diff   -- `git diff` of the change against the checked-out commit (source files only: no build dirs, no seed/ files); must apply with `git apply` on a clean checkout
   seed/change1/demo.c (or demo.cc, plus any helper files) and seed/change1/run.sh -- run.sh takes the path of a c-ares build directory as $1 (e.g. `seed/change1/run.sh {wt}/_build`), compiles the demo against the library in that build dir and runs it; exit 0 = property observed to hold, non-zero = violation observed
   seed/change1/README.md    -- what the change is, why it breaks the property, exactly what is needed for it to manifest, and the commands you ran with their observed results (unchanged tree: suite passes, demo passes; changed tree: suite passes, demo fails)
-  seed/change2/...          -- same for the second change
+  seed/change2/...          -- same for the second change{" (and seed/change3/... for the third)" if N3 else ""}
 Keep the working tree itself CLEAN at the end (git stash / git checkout the source changes so that `git status` shows only untracked seed/ and build dirs); the patches live only in seed/*/patch.diff.
 
-Verify everything yourself before finishing: for each change, on a clean tree: build, run suite (must pass as baseline), run demo (must pass); apply patch, rebuild, run suite (must still pass), run demo (must fail); then revert. If a candidate change makes an existing test fail, discard it and find another. If after serious effort you can only produce one valid change, deliver one and say so. If you notice that the UNCHANGED library already violates the property somewhere, mention it briefly at the end but do not count it as one of your changes. Your final message should briefly list the changes (file/function, what breaks, what is needed to manifest) and the verification results.""")
+Verify everything yourself before finishing: for each change, on a clean tree: build, run suite (must pass as baseline), run demo (must pass); apply patch, rebuild, run suite (must still pass), run demo (must fail); then revert. If a candidate change makes an existing test fail, discard it and find another. If after serious effort you can only produce fewer valid changes, deliver those and say so. If you notice that the UNCHANGED library already violates the property somewhere, mention it briefly at the end but do not count it as one of your changes. Your final message should briefly list the changes (file/function, what breaks, what is needed to manifest) and the verification results.""")
